@@ -71,6 +71,16 @@ def gen_deflate(tier, rng):
                 scns.append(igz.scenario(len(scns), "deflate", inp, level=level, wrap=[0, 1, 3][k % 3], lbuf=[3, 0][k % 2], mem=[0, 1, 2][k % 3], prefill=k % 3,
                                          calls=[[first, 1 << 18, 0, 0], [n, 1 << 18, [0, 1, 2][k % 3], 1]], tail_ai=n, tail_ao=1 << 18, cap=400, meta={"family": "small-then-huge", "cls": cls}))
                 k += 1
+    # (v2b) large chunks (more than a window each) in SEPARATE memory, no flush, data repeating at a distance just under the window: when the
+    #       compressor goes back from its internal buffer to the caller's chunk, what lies in front of the new chunk is not the previous chunk
+    for period in (32700, 32750, 32500) if tier == "quick" else (32700, 32750, 32500, 32767, 32768 - 288, 30000):
+        basep = igz.corpus(rng, "random", period)
+        inp = (basep * 5)[:135000]
+        for level in range(4):
+            for mem in (3, 1, 2):          # 3: every chunk begins directly behind an inaccessible page
+                if tier == "quick" and (level + mem + period) % 2 and mem != 3: continue
+                scns.append(igz.scenario(len(scns), "deflate", inp, level=level, wrap=[0, 1, 3][(level + mem) % 3], lbuf=[3, 0][mem % 2], mem=mem, prefill=mem % 3,
+                                         calls=[[40000, 1 << 18, 0, 0], [45000, 1 << 18, 0, 0], [50000, 1 << 18, 0, 1]], tail_ai=len(inp), tail_ao=1 << 18, cap=400, meta={"family": "window-sized-chunks-in-separate-memory", "cls": "periodic"}))
     # (v3) zlib wrapper with a call boundary exactly where the running Adler-32 low half is 0 or 65520 (the compressor carries B|(A-1) between calls)
     from props import c11
     for name, d in c11.adler_edge_inputs(rng):
